@@ -1,6 +1,7 @@
 """C01 - compiled scalar-core programs compute what the source says (VM)."""
 from .. import adapter, gen, interp
 from ..compare import same
+from ..compare import same as _same
 from ..interp import OutOfDomain, deep_copy
 
 LEVEL = "exploration"
@@ -14,7 +15,8 @@ RULE = ("Generated well-typed scalar-core programs (gen.core_case: int/float par
 ASSUMPTIONS = [
     "vf/interp.py implements the C-like semantics named in the statement; behaviour the statement leaves open "
     "(% with negative operands, float->int conversion, side effects inside operands, wrap-around) is never generated or is discarded",
-    "floats compared with rel_tol=1e-9 (both sides compute in IEEE double in the same order); ints exactly",
+    "floats compared exactly in C01 (both sides compute in IEEE double in the order the source prescribes); other "
+    "properties re-using this comparison keep rel_tol=1e-9 where an operation has no prescribed order (matrix product); ints exactly",
     "a VM run exceeding 200*S+10000 instructions (S = reference AST steps) is classified as divergence",
 ]
 
@@ -30,7 +32,15 @@ def program_labels(ctx, case):
         ctx.label("paren:min")
 
 
-def check_case(ctx, case, prop="C01", nontrivial=None, extra_labels=(), check_args=False):
+def check_case(ctx, case, prop="C01", nontrivial=None, extra_labels=(), check_args=False, exact_floats=False, optimize=False):
+    """exact_floats: the scalar core has one evaluation order (the source's), and both sides compute in IEEE double,
+    so floats must agree bit for bit; callers whose programs contain operations without a prescribed summation
+    order (matrix products) keep the tolerance"""
+    if exact_floats:
+        def same(a, b):
+            return _same(a, b, 0.0, 0.0)
+    else:
+        same = _same
     prog = case.prog
     src = case.source()
     expected = []
@@ -44,10 +54,10 @@ def check_case(ctx, case, prop="C01", nontrivial=None, extra_labels=(), check_ar
     ctx.count(len(case.inputs))
     if all(e is None for e in expected):
         return
-    c = adapter.compile_src(src)
+    c = adapter.compile_src(src, optimize=optimize)
     if not c.ok:
         ctx.fail("rejected|" + c.stage + "|" + c.why()[:90],
-                 "well-typed program rejected: %s\n%s" % (c.why(), c.out[-400:]), case)
+                 "well-typed program rejected%s: %s\n%s" % (" (optimize=True)" if optimize else "", c.why(), c.out[-400:]), case)
         return
     try:
         program = adapter.link([c.ir])
@@ -192,15 +202,19 @@ def grid_case(ctx, case):
             return
         if lt != rt or "from" in case.ls + case.rs or "assigned" in case.ls + case.rs:
             ctx.nontrivial((src,))
-        if not same(ran.value, exp):
+        if not _same(ran.value, exp, 0.0, 0.0):
             ctx.fail("wrong-value", "f(a=%d, b=%d, x=%r, y=%r) returned %r, the source says %r (declared operand types %s %s %s)\n%s" % (
                 a, b, x, y, ran.value, exp, lt, case.op, rt, src), case)
             return
 
 
+def exact_case(ctx, case):
+    check_case(ctx, case, exact_floats=True)
+
+
 def run(R):
     R.enum("promotion-grid", grid_items, grid_case)
-    R.hyp("core", gen.core_case(), check_case, examples=R.pick(300, 5000), shrink="ast")
+    R.hyp("core", gen.core_case(), exact_case, examples=R.pick(300, 5000), shrink="ast")
     for k in ["iter:for", "iter:while", "iter:do", "break:for", "continue:for", "continue:while",
               "continue:do", "int-div", "mixed-promotion", "array-write", "field-write",
               "compound-assign", "decl-in-loop", "aggregate-redeclared-in-loop"]:
